@@ -840,7 +840,7 @@ def classify_known(key):
 
 def run(ctx):
     quick = ctx.tier == "quick"
-    n_surf, n_vol, n_line = (130, 45, 35) if quick else (2000, 500, 300)
+    n_surf, n_vol, n_line = (130, 45, 35) if quick else (1400, 350, 250)
     ctx.rule = ("integer-coordinate meshes: open/closed fans, closed polyhedra, planar lattice grids and height fields with "
                 "random diagonals, holes, 1->3 splits, renumbering, face rotation, both orientations, occasional isolated vertex; "
                 "tet meshes (1, 2, 5-/6-tet cubes, 1->4 split, jitter, permuted cells); polylines (paths, cycles, stars, trees+chords). "
